@@ -20,6 +20,8 @@ var Worlds = map[string]core.World{
 	"C06": liveWorld{prop: "C06"},
 	"C14": liveWorld{prop: "C14"},
 	"C19": lineWorld{},
+	"C12": playWorld{},
+	"C13": recWorld{},
 }
 
 // SelfTest validates the reference models against the specification's own examples and
